@@ -653,8 +653,8 @@ CONFIG = {
                    "yields only on identical data (tiebreak_opposite, tiebreak_tie_iff, tiebreak_two_probers); fewer records yield "
                    "(tiebreak_length_rule); the loser restarts exactly one second later (tiebreaking_spec). name_change / hostname_change "
                    "append ' (2)' / '-2' or count an existing suffix up, keep everything from the first dot on, count 2, 3, 4, ... on repeated "
-                   "renaming, never return an error and panic only on the u32 overflow at 4294967295 (name_change_spec, hostname_change_spec, "
-                   "*_counts_up, rename_panics_only_on_overflow); the first part grows by at most 4 / 2 bytes (rename_label_bound). The full "
+                   "renaming, and are total - never an error, never a panic; at the counter 4294967295 a fresh suffix is appended (name_change_spec, "
+                   "hostname_change_spec, *_counts_up, rename_total); the first part grows by at most 4 / 2 bytes (rename_label_bound). The full "
                    "clause 'the new name is still encodable' is false of the code (rename_keeps_name_encodable_full_is_false; known findings "
                    "D13, D15, D15b); proved instead: rename_keeps_name_encodable_partial (first label without escapes, <= 59 / 61 bytes, "
                    "name <= 251 / 253 bytes). The model is compared with DnsRecordExt::compare, Probe::tiebreaking (through the real encoder and "
